@@ -441,6 +441,13 @@ def normalise(program):
             except Exception as e:
                 skipped.append("assignments %s: %s" % (f.qualname, type(e).__name__))
                 continue
+    stats["joins_threaded"] = 0
+    for m in program.modules.values():
+        for f in list(m.funcs.values()) + [f for c in m.classes.values() for f in c.methods.values()]:
+            try:
+                stats["joins_threaded"] += inline.thread_joins(f.node)
+            except Exception as e:
+                skipped.append("joins %s: %s" % (f.qualname, type(e).__name__))
     stats["conditionals_lifted"] = 0
     for m in program.modules.values():
         for f in list(m.funcs.values()) + [f for c in m.classes.values() for f in c.methods.values()]:
